@@ -28,9 +28,13 @@
 //!    512*len + 1 MiB (512: the decoder legitimately builds ~216-byte
 //!    `TensorProto`s from 2-byte encodings and `Vec` doubling adds 2x, so a
 //!    16x bound would be unsound for the *decoded structures*);
-//!  * aborts: inputs that can abort (a varint in [2^31, 2^63+2^20] anywhere,
-//!    inputs longer than 16 KiB because of recursion depth, `Model::load`)
-//!    run in a forked child with an alarm;
+//!  * aborts: every case is first decoded in-process in "dry" mode, where the
+//!    counting reader does not forward a `read_bytes/read_string(len)` whose
+//!    allocation the allocator wrapper would refuse (> 4 GiB + 64 KiB; smaller
+//!    requests are served lazily and are harmless). If that happens the case
+//!    is repeated in a forked child (8 MiB stack, alarm), where the abort is
+//!    observed. Inputs over 128 KiB, the deep-nesting cases (recursion depth)
+//!    and `Model::load` always run in a child;
 //!  * "lengths larger than the remaining input are errors": the shadow walker
 //!    finds the first length-delimited field, at a level the decoder walks,
 //!    whose length exceeds the rest of the whole input; if the real decoder
@@ -101,11 +105,13 @@ pub struct Plan {
     pub sniff: bool,
     pub file: bool,
     pub load: bool,
+    /// Run in a child (8 MiB stack) even if the dry run sees no danger.
+    pub child: bool,
 }
 
 impl Plan {
     pub fn for_group(group: &str) -> Plan {
-        Plan { buf: group == "parse_buf", sniff: group == "is_onnx_model", file: group == "parse_file", load: group == "Model::load" }
+        Plan { buf: group == "parse_buf", sniff: group == "is_onnx_model", file: group == "parse_file", load: group == "Model::load", child: false }
     }
 }
 
@@ -245,9 +251,46 @@ fn err_kind(e: &rten_onnx::protobuf::ProtobufError) -> String {
     }
 }
 
+/// A scratch file that is rewritten in place for every case (no truncate to
+/// zero and no unlink per case: the file system here discards freed blocks
+/// synchronously, which costs milliseconds).
+pub struct TmpFile {
+    pub path: String,
+    file: std::sync::Mutex<std::fs::File>,
+}
+
+impl TmpFile {
+    pub fn create(path: &str) -> Option<TmpFile> {
+        let file = std::fs::OpenOptions::new().read(true).write(true).create(true).truncate(true).open(path).ok()?;
+        Some(TmpFile { path: path.to_string(), file: std::sync::Mutex::new(file) })
+    }
+    pub fn put(&self, bytes: &[u8]) -> bool {
+        use std::io::{Seek, SeekFrom, Write};
+        let Ok(mut f) = self.file.lock() else { return false };
+        f.seek(SeekFrom::Start(0)).is_ok() && f.write_all(bytes).is_ok() && f.set_len(bytes.len() as u64).is_ok() && f.flush().is_ok()
+    }
+}
+
 /// Execute the planned entry points on `bytes` in this process.
-pub fn exec_case(bytes: &[u8], plan: Plan, hdr: Option<&Hdr>, tmp: Option<&str>, allow_load: bool) -> Vec<EntryOut> {
+///
+/// With `dry` (in-process runs), the first monitored decode does not forward
+/// allocation requests that would abort the process; if one is seen the
+/// function returns `None` and the caller repeats the case in a child.
+pub fn exec_case(bytes: &[u8], plan: Plan, hdr: Option<&Hdr>, tmp: Option<&TmpFile>, allow_load: bool, dry: bool) -> Option<Vec<EntryOut>> {
     let mut outs = Vec::new();
+    if dry && !plan.buf {
+        // The interception lives in the monitored buffer decode.
+        let io = IoState::new(bytes.len());
+        let mut mon = Mon::new(bytes.len(), false);
+        mon.intercept_above = Some(allocmon::REFUSE_ABOVE as u64 - 4096);
+        let _ = catch(|| {
+            let rd = Counting::new(ValueReader::new(ReadPos::new(IoMon::new(Cursor::new(bytes), &io))), &mut mon);
+            ModelProto::decode(rd).is_ok()
+        });
+        if mon.intercepted {
+            return None;
+        }
+    }
     let len = bytes.len();
     let hdr_ptr = hdr.map(|h| h as *const Hdr);
     let mut hang_risk = false;
@@ -258,6 +301,9 @@ pub fn exec_case(bytes: &[u8], plan: Plan, hdr: Option<&Hdr>, tmp: Option<&str>,
         let io = IoState::new(len);
         let mut mon = Mon::new(len, true);
         mon.hdr = hdr_ptr;
+        if dry {
+            mon.intercept_above = Some(allocmon::REFUSE_ABOVE as u64 - 4096);
+        }
         set_stage(hdr, Entry::MonBuf);
         let mut out = EntryOut { entry: Entry::MonBuf as u32, trace_match: -1, ..Default::default() };
         let (r, max_alloc) = allocmon::measure(|| {
@@ -267,6 +313,9 @@ pub fn exec_case(bytes: &[u8], plan: Plan, hdr: Option<&Hdr>, tmp: Option<&str>,
             })
         });
         out.max_alloc = max_alloc as u64;
+        if mon.intercepted {
+            return None;
+        }
         finish_status(&mut out, r);
         fill_from_monitors(&mut out, &mon, &io);
         if out.mon.is_empty() && out.status != "panic" {
@@ -308,8 +357,9 @@ pub fn exec_case(bytes: &[u8], plan: Plan, hdr: Option<&Hdr>, tmp: Option<&str>,
     }
 
     if plan.file && !cfg!(miri) {
-        if let Some(path) = tmp {
-            if std::fs::write(path, bytes).is_ok() {
+        if let Some(tf) = tmp {
+            let path = tf.path.as_str();
+            if tf.put(bytes) {
                 let w = shadow::walk(bytes, Msg::Model);
                 let io = IoState::new(len);
                 let mut mon = Mon::new(len, true);
@@ -374,23 +424,29 @@ pub fn exec_case(bytes: &[u8], plan: Plan, hdr: Option<&Hdr>, tmp: Option<&str>,
         }
         outs.push(out);
     }
-    outs
+    Some(outs)
 }
 
 // ---------------------------------------------------------------- running a case
 
-pub const SAFE_LEN: usize = 16 * 1024;
+/// In-process decodes run on a 1 GiB stack (main.rs); at <= ~6 KiB of stack
+/// per nesting level (ASan) and >= 2 bytes of input per level this is safe.
+pub const SAFE_LEN: usize = 128 * 1024;
 
-/// Can executing `bytes` in this process abort it? (Conservative.)
+/// Must the case run in a child regardless of what the dry run says?
+/// (`Model::load` can abort outside the decoder; long inputs can nest deeply.)
 pub fn needs_child(bytes: &[u8], plan: Plan) -> bool {
-    if plan.load || bytes.len() > SAFE_LEN {
-        return true;
-    }
-    // Any varint, at any offset, that would be a huge-but-allocatable length.
-    (0..bytes.len()).any(|i| match shadow::varint_at(bytes, i) {
-        Some((v, _)) => v >= (1 << 31) && v <= (1u64 << 63) + (1 << 20),
-        None => false,
-    })
+    plan.load || plan.child || bytes.len() > SAFE_LEN
+}
+
+/// Under Miri there are no children: skip inputs with a varint, at any
+/// offset, that as a length would make the decoder really allocate a lot.
+pub fn unsafe_without_child(bytes: &[u8]) -> bool {
+    bytes.len() > SAFE_LEN
+        || (0..bytes.len()).any(|i| match shadow::varint_at(bytes, i) {
+            Some((v, _)) => v > (1 << 22) && v <= (1u64 << 63) + (1 << 20),
+            None => false,
+        })
 }
 
 pub struct CaseOutcome {
@@ -402,7 +458,7 @@ pub struct CaseOutcome {
 
 pub struct Ctx {
     pub shared: Shared,
-    pub tmp_path: Option<String>,
+    pub tmp: Option<TmpFile>,
     pub tmp_dir: Option<String>,
     pub timeout_s: u32,
 }
@@ -410,14 +466,14 @@ pub struct Ctx {
 impl Ctx {
     pub fn new() -> Ctx {
         let shared = Shared::new();
-        let (tmp_dir, tmp_path) = if cfg!(miri) {
+        let (tmp_dir, tmp) = if cfg!(miri) {
             (None, None)
         } else {
             let d = format!("/verif/tmp/{}", std::process::id());
             let _ = std::fs::create_dir_all(&d);
-            (Some(d.clone()), Some(format!("{}/case.onnx", d)))
+            (Some(d.clone()), TmpFile::create(&format!("{}/case.onnx", d)))
         };
-        Ctx { shared, tmp_path, tmp_dir, timeout_s: 5 }
+        Ctx { shared, tmp, tmp_dir, timeout_s: 10 }
     }
 
     pub fn cleanup(&self) {
@@ -427,14 +483,22 @@ impl Ctx {
     }
 
     pub fn run_case(&self, bytes: &[u8], plan: Plan) -> CaseOutcome {
-        if needs_child(bytes, plan) {
-            if cfg!(miri) {
+        if cfg!(miri) {
+            if unsafe_without_child(bytes) {
                 return CaseOutcome { outs: Vec::new(), crash: None, in_child: true };
             }
-            let timeout = self.timeout_s + (bytes.len() >> 20) as u32;
+            let outs = exec_case(bytes, plan, None, None, false, false).unwrap_or_default();
+            return CaseOutcome { outs, crash: None, in_child: false };
+        }
+        let mut in_proc = None;
+        if !needs_child(bytes, plan) {
+            in_proc = exec_case(bytes, plan, None, self.tmp.as_ref(), false, true);
+        }
+        if in_proc.is_none() {
+            let timeout = self.timeout_s + (bytes.len() >> 16) as u32;
             allocmon::set_shared(self.shared.max_alloc_ptr());
             let run = self.shared.run(timeout, || {
-                let outs = exec_case(bytes, plan, Some(self.shared.hdr()), self.tmp_path.as_deref(), true);
+                let outs = exec_case(bytes, plan, Some(self.shared.hdr()), self.tmp.as_ref(), true, false).unwrap_or_default();
                 Json::Array(outs.iter().map(|o| o.to_json()).collect()).to_string()
             });
             allocmon::set_shared(std::ptr::null_mut());
@@ -446,8 +510,7 @@ impl Ctx {
                 CaseOutcome { outs: Vec::new(), crash: Some(run), in_child: true }
             }
         } else {
-            let outs = exec_case(bytes, plan, None, self.tmp_path.as_deref(), false);
-            CaseOutcome { outs, crash: None, in_child: false }
+            CaseOutcome { outs: in_proc.unwrap(), crash: None, in_child: false }
         }
     }
 }
@@ -522,10 +585,12 @@ pub fn judge(bytes: &[u8], oc: &CaseOutcome) -> Vec<Finding> {
         if let Some(entry) = entry {
             // `Model::load` crashes cannot be attributed to the decoder from
             // here; the decoder entry points see the same bytes directly.
-            // A timeout is only a finding for the plain parse functions (1.4).
+            // A child killed by the alarm or by SIGKILL is never a finding:
+            // non-termination is decided by the logical monitors (which stop
+            // the decode themselves), not by a clock on a loaded machine.
             let counts = match entry {
                 Entry::Load => false,
-                _ => crash != "signal:9",
+                _ => crash != "signal:9" && crash != "timeout",
             };
             if counts {
                 let crash2 = if crash == "signal:6" && run.max_alloc > generic_alloc_bound(len) { "abort:alloc".to_string() } else { crash };
@@ -624,6 +689,12 @@ struct SeedInfo {
     walk: Walk,
 }
 
+/// Under ASan every multi-GiB `calloc` costs tens of milliseconds of shadow
+/// poisoning, so that flavour draws the 2^31 class less often.
+fn big_allocs_are_slow() -> bool {
+    std::env::var("VERIF_FLAVOUR").map(|f| f == "asan").unwrap_or(false)
+}
+
 fn structured_mutant(rng: &mut Rng, s: &SeedInfo, safe_only: bool, allow_hang_inside_call: bool) -> Option<Mutant> {
     let n_sites = s.walk.sites.len();
     match rng.below(20) {
@@ -631,7 +702,8 @@ fn structured_mutant(rng: &mut Rng, s: &SeedInfo, safe_only: bool, allow_hang_in
             let class = match rng.below(12) {
                 0..=3 => "len_wrap",
                 4 | 5 => "len_2p63",
-                6 | 7 => "len_2p31",
+                6 | 7 if !big_allocs_are_slow() || rng.chance(1, 8) => "len_2p31",
+                6 | 7 => "len_gt_remaining",
                 8 | 9 => "len_gt_remaining",
                 10 => "len_short",
                 _ => "len_nested_overrun",
@@ -658,11 +730,13 @@ pub struct Runner<'a> {
     pub ctx: &'a Ctx,
     seen: HashSet<(String, String)>,
     pub max_shrink_exec: usize,
+    pub shrink_time_box_s: f64,
+    pub mismatch_examples: Vec<Json>,
 }
 
 impl<'a> Runner<'a> {
     pub fn new(rep: &'a mut Report, ctx: &'a Ctx) -> Self {
-        Runner { rep, ctx, seen: HashSet::new(), max_shrink_exec: 250 }
+        Runner { rep, ctx, seen: HashSet::new(), max_shrink_exec: 250, shrink_time_box_s: 3.0, mismatch_examples: Vec::new() }
     }
 
     fn evidence(&mut self, case: &Case, oc: &CaseOutcome) {
@@ -706,6 +780,9 @@ impl<'a> Runner<'a> {
                     rep.count("trace_equals_shadow_prediction");
                 } else if o.trace_match == 0 {
                     rep.count("trace_differs_from_shadow_prediction");
+                    if self.mismatch_examples.len() < 5 && case.bytes.len() < 3000 {
+                        self.mismatch_examples.push(json!({"hex": to_hex(&case.bytes), "class": case.class, "detail": case.detail, "status": o.status, "msg": o.msg}));
+                    }
                 }
                 if o.accepted.is_some() {
                     rep.count("reader_level_overrun_accepted");
@@ -729,7 +806,9 @@ impl<'a> Runner<'a> {
 
     /// Run one case, judge it, shrink and report findings.
     pub fn run(&mut self, case: &Case, plan: Plan) {
+        let t0 = std::time::Instant::now();
         let oc = self.ctx.run_case(&case.bytes, plan);
+        self.rep.add(if oc.in_child { "time_us.child_cases" } else { "time_us.inprocess_cases" }, t0.elapsed().as_micros() as u64);
         if oc.in_child && oc.outs.is_empty() && oc.crash.is_none() {
             self.rep.count("skipped_needs_child");
             return;
@@ -753,34 +832,34 @@ impl<'a> Runner<'a> {
     }
 
     fn reproduces(&self, bytes: &[u8], f: &Finding) -> Option<Finding> {
-        let plan = Plan::for_group(f.entry.group());
+        let plan = Plan { child: f.crash == "stack_overflow", ..Plan::for_group(f.entry.group()) };
         let oc = self.ctx.run_case(bytes, plan);
         judge(bytes, &oc).into_iter().find(|g| g.key() == f.key())
     }
 
     fn report(&mut self, case: &Case, f: &Finding) {
-        // A timeout is only believed after the single input was re-run alone (1.4).
-        if f.crash == "timeout" {
-            if self.reproduces(&case.bytes, f).is_none() {
-                self.rep.count("timeout_not_reproduced_alone");
-                return;
-            }
-        }
         let max_exec = if case.bytes.len() > 200_000 { 40 } else { self.max_shrink_exec };
-        let (shrunk, execs) = shrink::ddmin(&case.bytes, max_exec, |cand| self.reproduces(cand, f).is_some());
+        let t0 = std::time::Instant::now();
+        // Time-boxed as well: reproducing an abort needs a child per attempt.
+        let box_s = self.shrink_time_box_s;
+        let (shrunk, execs) = shrink::ddmin(&case.bytes, max_exec, |cand| t0.elapsed().as_secs_f64() < box_s && self.reproduces(cand, f).is_some());
+        self.rep.add("time_us.shrinking", t0.elapsed().as_micros() as u64);
         self.rep.add("shrink_executions", execs as u64);
         let fin = self.reproduces(&shrunk, f).unwrap_or_else(|| f.clone());
+        if std::env::var_os("LF_DEBUG").is_some() {
+            eprintln!("report: f={} fin={} shrunk={}", f.signature(), fin.signature(), to_hex(&shrunk[..shrunk.len().min(40)]));
+        }
         // Confirm logical-bound findings against the plain public function,
         // alone in a child with a wall-clock limit.
         let mut confirm = Json::Null;
         if hang_class(&fin.crash) && !cfg!(miri) && shrunk.len() <= SAFE_LEN {
-            let file = fin.entry.group() == "parse_file";
-            let path = self.ctx.tmp_path.clone();
+            let file = fin.entry.group() == "parse_file" && self.ctx.tmp.is_some();
+            let tmp = self.ctx.tmp.as_ref();
             let run = self.ctx.shared.run(2, || {
                 let r = if file {
-                    let p = path.unwrap();
-                    std::fs::write(&p, &shrunk).unwrap();
-                    catch(|| ModelProto::parse_file(std::fs::File::open(&p).unwrap()).is_ok())
+                    let tf = tmp.unwrap();
+                    tf.put(&shrunk);
+                    catch(|| ModelProto::parse_file(std::fs::File::open(&tf.path).unwrap()).is_ok())
                 } else if fin.entry == Entry::Sniff {
                     catch(|| is_onnx_model(ValueReader::from_buf(&shrunk[..])))
                 } else {
@@ -832,9 +911,10 @@ pub fn run(args: &Args) {
     unsafe { std::env::set_var("RUST_BACKTRACE", "0") };
     let mut rep = Report::new("C38", "loadfuzz", args, RULE);
     rep.max_violations = 64;
+    rep.max_per_group = 32;
     let ctx = Ctx::new();
     let miri = cfg!(miri);
-    let full_plan = Plan { buf: true, sniff: true, file: !miri, load: false };
+    let full_plan = Plan { buf: true, sniff: true, file: !miri, load: false, child: false };
 
     if let Some(path) = &args.replay {
         let text = std::fs::read_to_string(path).expect("read replay file");
@@ -862,7 +942,7 @@ pub fn run(args: &Args) {
     let mut selftest_failed: Vec<String> = Vec::new();
     for s in &seed_list {
         let walk = shadow::walk(&s.bytes, Msg::Model);
-        let oc = ctx.run_case(&s.bytes, Plan { buf: true, sniff: false, file: false, load: false });
+        let oc = ctx.run_case(&s.bytes, Plan { buf: true, sniff: false, file: false, load: false, child: false });
         if miri && oc.in_child {
             continue;
         }
@@ -893,12 +973,15 @@ pub fn run(args: &Args) {
         rep.note("length_sites_by_field", json!(kinds));
     }
 
-    let budget = args.budget(if miri { 60 } else { 20_000 }, if miri { 600 } else { 2_000_000 });
+    let budget = args.budget(if miri { 60 } else { 12_000 }, if miri { 600 } else { 2_000_000 });
     let mut done: u64 = 0;
     let shard = args.shard as u64;
     let shards = args.shards.max(1) as u64;
     let mut rng = Rng::derive(args.seed, 0x38_0000 + shard);
     let mut runner = Runner::new(&mut rep, &ctx);
+    if args.thorough {
+        runner.shrink_time_box_s = 20.0;
+    }
     let mut idx: u64 = 0;
     let mut mine = |idx: &mut u64| {
         let m = *idx % shards == shard;
@@ -920,7 +1003,7 @@ pub fn run(args: &Args) {
     let classes: [&'static str; 6] = pbmut::LEN_CLASSES;
     'sys: for s in &infos {
         let n_sites = s.walk.sites.len();
-        let stride = if n_sites > 400 { n_sites / 200 } else { 1 };
+        let stride = if s.bytes.len() > 16 * 1024 { (n_sites / 24).max(1) } else { 1 };
         for site in (0..n_sites).step_by(stride.max(1)) {
             for class in classes {
                 if !mine(&mut idx) {
@@ -929,10 +1012,13 @@ pub fn run(args: &Args) {
                 if done >= budget / 2 {
                     break 'sys;
                 }
+                if class == "len_2p31" && big_allocs_are_slow() && idx % 8 != 0 {
+                    continue;
+                }
                 let mut r = Rng::derive(args.seed, 0x38_1000_0000 + idx);
                 if let Some(m) = pbmut::mutate_len_site(&mut r, class, &s.bytes, &s.walk, site, miri) {
                     let case = Case { bytes: m.bytes, class: m.class.into(), detail: m.detail, seed_name: s.name, gen_: Gen::Bytes, structured: true };
-                    let plan = Plan { file: !miri && idx % 2 == 0, load: !miri && idx % 8 == 1, ..full_plan };
+                    let plan = Plan { file: !miri && idx % 2 == 0, load: !miri && idx % 64 == 1, ..full_plan };
                     runner.run(&case, plan);
                     runner.rep.count("systematic_site_x_class");
                     done += 1;
@@ -943,7 +1029,7 @@ pub fn run(args: &Args) {
 
     // ---- 3. deep nesting (children only)
     if !miri {
-        let depths: &[usize] = if args.thorough { &[64, 300, 1000, 3000, 10_000, 30_000, 100_000, 300_000] } else { &[64, 1000, 10_000, 100_000] };
+        let depths: &[usize] = if args.thorough { &[64, 300, 1000, 3000, 10_000, 30_000, 100_000, 300_000] } else { &[64, 3000, 30_000] };
         for kind in [NestKind::GraphAttr, NestKind::TypeSeq, NestKind::UnknownOnly] {
             for &depth in depths {
                 for lie in [false, true] {
@@ -959,7 +1045,7 @@ pub fn run(args: &Args) {
                         gen_: Gen::Deep { kind, depth, lie },
                         structured: true,
                     };
-                    runner.run(&case, Plan { load: false, ..full_plan });
+                    runner.run(&case, Plan { load: false, child: true, ..full_plan });
                     done += 1;
                 }
             }
@@ -998,22 +1084,31 @@ pub fn run(args: &Args) {
             bytes = b2;
             class = format!("{}+{}", class, n);
         }
-        if miri && needs_child(&bytes, full_plan) {
+        if miri && unsafe_without_child(&bytes) {
             runner.rep.count("skipped_needs_child");
             continue;
         }
         let case = Case { bytes, class, detail: m.detail, seed_name: s.name, gen_: Gen::Bytes, structured };
-        let plan = Plan { file: !miri && rng.chance(1, 2), load: !miri && rng.chance(1, 8), ..full_plan };
+        let plan = Plan { file: !miri && rng.chance(1, 2), load: !miri && rng.chance(1, 64), ..full_plan };
         runner.run(&case, plan);
         done += 1;
     }
 
+    let examples = std::mem::take(&mut runner.mismatch_examples);
+    drop(runner);
+    if !examples.is_empty() {
+        rep.note("trace_mismatch_examples", Json::Array(examples));
+    }
     let n_eval = rep.evaluations;
     let mismatches = rep.counters.get("trace_differs_from_shadow_prediction").copied().unwrap_or(0);
     rep.note(
         "bounds",
         json!({"bytes_read": "2*len+64", "primitive_calls": "4*len+64", "io_calls": "16*len+256", "alloc_in_length_call": "16*len+1MiB", "alloc_any": "512*len+1MiB", "child_alarm_s": ctx.timeout_s}),
     );
+    let timeouts = rep.counters.get("child_end.timeout").copied().unwrap_or(0);
+    if timeouts * 50 > n_eval.max(50) {
+        rep.inconclusive = Some(format!("{} of {} cases were killed by the child alarm (machine overloaded?)", timeouts, n_eval));
+    }
     if n_eval > 0 && mismatches * 2 > n_eval {
         // The prediction is only required to match up to the first anomaly, so
         // this never happens unless the schema table is wrong.
@@ -1021,4 +1116,44 @@ pub fn run(args: &Args) {
     }
     ctx.cleanup();
     rep.finish();
+}
+
+pub fn bench() {
+    let ctx = Ctx::new();
+    for kind in [NestKind::GraphAttr, NestKind::TypeSeq, NestKind::UnknownOnly] {
+        for depth in [3000usize, 30_000, 100_000] {
+            for lie in [false, true] {
+                let bytes = pbmut::deep_nest(kind, depth, lie);
+                let t = std::time::Instant::now();
+                let w = shadow::walk(&bytes, Msg::Model);
+                eprintln!("walk {:?} sites {} stop {:?}", t.elapsed(), w.sites.len(), matches!(w.stop, Stop::Clean));
+                let t = std::time::Instant::now();
+                let oc = ctx.run_case(&bytes, Plan { buf: true, sniff: true, file: true, load: false, child: true });
+                eprintln!("deep {} {} lie={} len={} -> {:?} crash={:?} outs={:?}", kind.name(), depth, lie, bytes.len(), t.elapsed(), oc.crash.as_ref().map(|c| (c.end.clone(), c.stage)), oc.outs.iter().map(|o| (o.entry, o.status.clone(), o.mon.clone(), o.calls)).collect::<Vec<_>>());
+            }
+        }
+    }
+    let t = std::time::Instant::now();
+    for _ in 0..200 {
+        let r = ctx.shared.run(5, || "x".to_string());
+        assert!(r.end == ChildEnd::Completed);
+    }
+    eprintln!("trivial child: {:?} per run", t.elapsed() / 200);
+    let seeds = seeds::build(true);
+    for s in &seeds {
+        let plan = Plan { buf: true, sniff: true, file: true, load: false, child: false };
+        let t = std::time::Instant::now();
+        for _ in 0..50 {
+            exec_case(&s.bytes, plan, None, ctx.tmp.as_ref(), false, true);
+        }
+        let a = t.elapsed() / 50;
+        let t = std::time::Instant::now();
+        for _ in 0..20 {
+            let plan = Plan { load: true, ..plan };
+            let oc = ctx.run_case(&s.bytes, plan);
+            assert!(oc.crash.is_none());
+        }
+        eprintln!("{}: {} bytes, in-process {:?}, child+load {:?}", s.name, s.bytes.len(), a, t.elapsed() / 20);
+    }
+    ctx.cleanup();
 }
